@@ -365,8 +365,16 @@ func c08Classify(d []byte, ctx c08Ctx) string {
 				set("undec:" + u)
 			} else if r.ct == 21 && len(recs) == 1 && r.body[0] != 2 && r.body[1] != 0 {
 				// a lone unprotected alert that is neither fatal nor close_notify: inert while the handshake is
-				// running, handed to Read (connection continues) once established - conn.go classifyReadLoopError
+				// running (conn.go classifyReadLoopError) and once established (handleRecordContent, d95e20d)
 				return "warn"
+			} else if r.ct == 21 && len(recs) == 1 {
+				// a lone unprotected fatal alert / close_notify: exception X1 while the handshake is running,
+				// inert once established (d95e20d)
+				if r.body[1] == 0 {
+					return "alert:close"
+				}
+
+				return "alert:fatal"
 			} else {
 				return "clear"
 			}
@@ -376,7 +384,9 @@ func c08Classify(d []byte, ctx c08Ctx) string {
 	return first
 }
 
-func c08IsDrop(class string) bool { return class != "clear" && class != "auth" && class != "warn" }
+func c08IsDrop(class string) bool {
+	return class != "clear" && class != "auth" && class != "warn" && !strings.HasPrefix(class, "alert:")
+}
 
 // ---------------------------------------------------------------- session with monitors
 
@@ -587,7 +597,7 @@ func (s *c08Sess) inject(target string, data []byte, class, gen string) c08Effec
 	if !c08IsDrop(class) {
 		s.res.DropOnly = false
 	}
-	if !(c08IsDrop(class) || (class == "warn" && !est)) {
+	if !(c08IsDrop(class) || class == "warn" || (strings.HasPrefix(class, "alert:") && est)) {
 		s.res.Inert = false
 	}
 	k := fmt.Sprintf("%v|%s|%s|%d|%v|%v", est, class, eff.key(), min(info.nrec, 2), fresh, neg)
@@ -596,7 +606,7 @@ func (s *c08Sess) inject(target string, data []byte, class, gen string) c08Effec
 	} else {
 		s.obsIdx[k] = len(s.res.Obs)
 		o := c08Obs{Est: est, V13: ctxV13, Class: class, Gen: gen, Effect: eff, N: 1, NRec: info.nrec, Fresh: fresh, Neg: neg}
-		if !eff.none() || len(s.res.Obs) < 2 || ((c08IsDrop(class) || class == "warn") && len(data) <= 64) {
+		if !eff.none() || len(s.res.Obs) < 2 || ((c08IsDrop(class) || class == "warn" || strings.HasPrefix(class, "alert:")) && len(data) <= 64) {
 			o.Hex = vHex(data)
 		}
 		s.res.Obs = append(s.res.Obs, o)
@@ -1202,6 +1212,15 @@ func (s *c08Sess) batch(c c08Case, rng *vRand, target string, pending []byte) {
 			// an unprotected warning alert (level 1, description other than close_notify), fresh record number
 			desc := []byte{0x5a, 0x64, 0x29, 0x0a, 0x6e, 0xff}[(c.Item+i)%6]
 			d := []byte{21, 0xfe, 0xfd, 0, 0, 0, 0, 0, 0, 0, 0, 0, 2, 1, desc}
+			if tgt.isHandshakeCompletedSuccessfully() && c.Stage < 0 {
+				// once established every unprotected alert must be inert: fatal ones and close_notify as well
+				switch (c.Item + i) % 3 {
+				case 1:
+					d[13], d[14] = 2, []byte{40, 10, 20, 80}[i%4]
+				case 2:
+					d[13], d[14] = []byte{1, 2}[i%2], 0
+				}
+			}
 			// a record number just ahead of the genuine sender's (inside the anti-replay window, so that committing
 			// it - which the code does for every unprotected record that decodes - does not push the genuine
 			// epoch-0 records out of the window: that would be the known power of an unauthenticated sender, X2)
@@ -1500,6 +1519,10 @@ func c08Cases(seed uint64, thorough bool) []c08Case {
 						add(v.Name, st, "warn", n)
 						cases[len(cases)-1].Item = st + n + 7
 					}
+				}
+				for k := 0; k < 3; k++ { // established: warning / fatal / close_notify mixes
+					add(v.Name, -1, "warn", 4)
+					cases[len(cases)-1].Item = k
 				}
 			}
 			add(v.Name, -1, "raw", 12)
